@@ -3,7 +3,7 @@
    after every step of every generated history; the theorems are about the reference and about the
    one place where representation decides behaviour (promotion of an arena object to a map). *)
 From Coq Require Import List NArith Arith.
-From SonicV Require Import Model.DomOps Model.Promote.
+From SonicV Require Import Model.DomOps Model.Promote Model.DomLens.
 Import ListNotations.
 Local Close Scope N_scope.
 
@@ -24,3 +24,11 @@ Proof. exact promote_preserves_get. Qed.
 Theorem promotion_with_duplicates_refuted : forall (key val : Type) (keq : forall a b : key, {a = b} + {a <> b}) (a : key) (v1 v2 : val),
   v1 <> v2 -> promote key val keq [(a, v1); (a, v2)] a <> get_first key val keq [(a, v1); (a, v2)] a.
 Proof. exact promote_refuted. Qed.
+
+(* the reference model is a lens: what is written at a path is what a later read at that path
+   returns, and a write resolves exactly where a read does *)
+Theorem reference_write_then_read : forall p t x t', upd_at t p (fun _ => Some x) = Some t' -> get_at t' p = Some x.
+Proof. exact write_then_read. Qed.
+Theorem reference_write_resolves_iff_read : forall p t x,
+  (exists t', upd_at t p (fun _ => Some x) = Some t') <-> (exists v, get_at t p = Some v).
+Proof. exact write_resolves_iff_read. Qed.
